@@ -366,14 +366,38 @@ func runAll(run *ev.Run, plan Plan, ac AllCfg) bool {
 		return false
 	}
 	defer fh.Close()
-	var traces []*Trace
+	// First pass: only what orders and groups the behaviours (action, session, arguments, status) is decoded - every shard reads
+	// the whole file, and holding every behaviour with all its step records cost gigabytes per shard.
+	type lightStep struct {
+		Act    string            `json:"act"`
+		S      string            `json:"s"`
+		Args   []json.RawMessage `json:"args"`
+		Status string            `json:"status"`
+	}
+	type lightTrace struct {
+		Steps []lightStep `json:"trace"`
+	}
+	type ref struct {
+		line  int
+		sig   string
+		group string
+	}
+	var refs []ref
 	sc := bufio.NewScanner(fh)
 	sc.Buffer(make([]byte, 1<<20), 1<<26)
-	for sc.Scan() {
-		var t Trace
-		if err := json.Unmarshal(sc.Bytes(), &t); err == nil && len(t.Steps) > 0 {
-			traces = append(traces, &t)
+	for line := 0; sc.Scan(); line++ {
+		var lt lightTrace
+		if err := json.Unmarshal(sc.Bytes(), &lt); err != nil || len(lt.Steps) == 0 {
+			continue
 		}
+		var sig, grp strings.Builder
+		for i := range lt.Steps {
+			st := Step{Act: lt.Steps[i].Act, S: lt.Steps[i].S, Args: lt.Steps[i].Args, Status: lt.Steps[i].Status}
+			sig.WriteString(st.Describe())
+			sig.WriteByte(';')
+			grp.WriteString(st.Act + "/" + st.S + ";")
+		}
+		refs = append(refs, ref{line: line, sig: sig.String(), group: grp.String()})
 	}
 	shard, n := ev.Shard()
 	if shard == 0 {
@@ -389,21 +413,16 @@ func runAll(run *ev.Run, plan Plan, ac AllCfg) bool {
 		}
 	}
 	// deterministic order whatever the TLC worker interleaving was
-	sort.Slice(traces, func(i, j int) bool { return traces[i].Sig() < traces[j].Sig() })
-	pick := traces
-	if ac.Max > 0 && len(traces) > ac.Max {
-		groups := map[string][]*Trace{}
+	sort.Slice(refs, func(i, j int) bool { return refs[i].sig < refs[j].sig })
+	pick := refs
+	if ac.Max > 0 && len(refs) > ac.Max {
+		groups := map[string][]ref{}
 		var keys []string
-		for _, t := range traces {
-			var b strings.Builder
-			for i := range t.Steps {
-				b.WriteString(t.Steps[i].Act + "/" + t.Steps[i].S + ";")
+		for _, t := range refs {
+			if _, ok := groups[t.group]; !ok {
+				keys = append(keys, t.group)
 			}
-			k := b.String()
-			if _, ok := groups[k]; !ok {
-				keys = append(keys, k)
-			}
-			groups[k] = append(groups[k], t)
+			groups[t.group] = append(groups[t.group], t)
 		}
 		rnd := rand.New(rand.NewSource(ev.Seed()*104729 + 17))
 		rnd.Shuffle(len(keys), func(i, j int) { keys[i], keys[j] = keys[j], keys[i] })
@@ -425,11 +444,31 @@ func runAll(run *ev.Run, plan Plan, ac AllCfg) bool {
 			run.Set("all_"+ac.File+"_groups", len(keys))
 		}
 	}
-	var mine []*Trace
+	// second pass: this shard's share is decoded in full
+	order := map[int]int{}
 	for i, t := range pick {
 		if i%n == shard {
-			mine = append(mine, t)
+			order[t.line] = len(order)
 		}
+	}
+	mine := make([]*Trace, len(order))
+	if _, err := fh.Seek(0, 0); err != nil {
+		run.Machinery("%v", err)
+		return false
+	}
+	sc = bufio.NewScanner(fh)
+	sc.Buffer(make([]byte, 1<<20), 1<<26)
+	for line := 0; sc.Scan(); line++ {
+		pos, ok := order[line]
+		if !ok {
+			continue
+		}
+		var t Trace
+		if err := json.Unmarshal(sc.Bytes(), &t); err != nil || len(t.Steps) == 0 {
+			run.Machinery("behaviour %d of %s cannot be decoded: %v", line, ac.File, err)
+			return false
+		}
+		mine[pos] = &t
 	}
 	if ac.EndOnly {
 		plan.CheckDBEachStep = false
